@@ -170,6 +170,39 @@ fn gen_sweep_case(seed: u64, j: u64) -> Case {
 }
 
 pub const HIDEG_BASE: u64 = 1 << 41;
+pub const OVER_BASE: u64 = 1 << 42;
+
+/// Over-provisioned family: most source symbols plus (K'-K+1) + 2H + 1 ... repair symbols handed over in
+/// one call, so that the solver's second phase works on many more rows than it needs (more than H surplus
+/// rows; the rank-deficient prefixes among them are where a pivot has to come from a late row).
+fn gen_over_case(seed: u64, j: u64) -> Case {
+    let mut rng = Rng::derive(seed, 0x0242, j);
+    let K = match rng.below(3) {
+        0 => *rng.pick(&[10usize, 12, 18, 20, 26]),
+        1 => rng.range(5, 60) as usize,
+        _ => rng.range(60, 300) as usize,
+    };
+    let p = rm::params(K);
+    let lost = rng.range(1, 3.min(K as u64)) as usize;
+    let mut src: Vec<u32> = (0..K as u32).collect();
+    rng.shuffle(&mut src);
+    let mut arrivals: Vec<u32> = src[..K - lost].to_vec();
+    let mut used: HashSet<u32> = arrivals.iter().copied().collect();
+    let nrep = (p.Kp - K + 1) + 2 * p.H + 1 + rng.below(24) as usize;
+    // consecutive ids from a random start, or scattered ones
+    let start = rng.range(K as u64, (1 << 24) - 1 - 4 * nrep as u64) as u32;
+    for i in 0..nrep as u32 {
+        let e = if j % 2 == 0 { start + i } else { rand_repair(&mut rng, K, &used) };
+        if used.insert(e) {
+            arrivals.push(e);
+        }
+    }
+    if rng.chance(1, 2) {
+        rng.shuffle(&mut arrivals);
+    }
+    let n = arrivals.len();
+    Case { K, T: rng.range(1, 4) as usize, threshold: *rng.pick(&[0u32, 250, u32::MAX]), data_seed: rng.next(), arrivals, batch_first: n }
+}
 
 /// High-degree family: a small block received through repair symbols whose LT degree (reference Deg[])
 /// is at least 4 (one of them exactly 4 in half of the cases), so that the solver's first phase has to
@@ -205,6 +238,9 @@ fn gen_hideg_case(seed: u64, j: u64) -> Case {
 }
 
 pub fn gen_case(seed: u64, idx: u64, kmax: usize) -> Case {
+    if idx >= OVER_BASE {
+        return gen_over_case(seed, idx - OVER_BASE);
+    }
     if idx >= HIDEG_BASE {
         return gen_hideg_case(seed, idx - HIDEG_BASE);
     }
@@ -481,6 +517,19 @@ pub fn run(ctx: &Ctx) -> i32 {
         ctx.eval(1);
     });
     ctx.cov("high_LT_degree_sets_(first_phase_rows_with_r>=4)", J::i(n_hideg));
+    let n_over = if ctx.args.ex("n").is_none() { ctx.args.pick(40_000usize, 800_000) } else { 0 };
+    par_for(n_over, |j| {
+        if ctx.too_many_violations() {
+            return;
+        }
+        let idx = OVER_BASE + j as u64;
+        crashlog::note(crashlog::CASE, &[ctx.seed(), idx, kmax as u64]);
+        let c = gen_case(ctx.seed(), idx, kmax);
+        let rj = case_json(ctx.seed(), idx, kmax, &c);
+        run_case(ctx, &gf, &c, rj, &st);
+        ctx.eval(1);
+    });
+    ctx.cov("over-provisioned_one-call_sets_(more_than_2H_surplus_rows)", J::i(n_over));
     let ev = raptorq::verif::events::read();
     ctx.cov("prefix_decisions_compared_with_rank_oracle", J::i(st.decisions.load(Relaxed)));
     ctx.cov("prefixes_below_K_asserted_None", J::i(st.below_k.load(Relaxed)));
@@ -494,7 +543,7 @@ pub fn run(ctx: &Ctx) -> i32 {
     ctx.floor("undecodable_prefixes_holding_at_least_L_symbols_(flood_of_dependent_symbols)", st.flood_undecodable.load(Relaxed), if q { 50 } else { 0 });
     ctx.floor("prefix_decisions", st.decisions.load(Relaxed), if q { 10000 } else { 10 });
     ctx.finish(
-        "arrival sequences of distinct encoder-produced symbols aimed at the decision boundary: 0..K-1 surviving source symbols + repair ESIs (small, uniform over [K,2^24), top of range) up to exactly K symbols, then extras one by one; one third of the cases start with one batch of K+H..K+H+3 symbols (reaches the GF(2)-only attempt; sets whose binary rows are rank deficient while the full matrix has rank L are counted as fallback cases); one case in 40 floods the decoder with L..L+11 repair symbols taken from at most 6 classes of ESIs with identical LT rows (rank far below L however many arrive) before the symbols that complete the rank; K in 1..60, random Table-2 K' and K'+-1 up to kmax, uniform up to kmax, 60 000 / 1 200 000 sets of a small block (K' <= 42) made only of repair symbols of LT degree >= 4 (so that the first solver phase meets rows with r >= 4), plus one sweep over every Table-2 row up to sweep_kmax (every 5th row above, up to sweep_kmax2) with K = K' and K = K'-1 / previous K'+1 and 1-3 lost source symbols; T 1..4; sparse threshold {0,250,inf}. After EVERY call: Some iff (all source present or rank over GF(256) of [LDPC; HDPC; LT rows of received+padding ISIs] = L) computed by the independent reference model; Some implies the right bytes. non-trivial = prefix with >= K distinct symbols and not all-source; distinct by (K, ESI set)",
+        "arrival sequences of distinct encoder-produced symbols aimed at the decision boundary: 0..K-1 surviving source symbols + repair ESIs (small, uniform over [K,2^24), top of range) up to exactly K symbols, then extras one by one; one third of the cases start with one batch of K+H..K+H+3 symbols (reaches the GF(2)-only attempt; sets whose binary rows are rank deficient while the full matrix has rank L are counted as fallback cases); one case in 40 floods the decoder with L..L+11 repair symbols taken from at most 6 classes of ESIs with identical LT rows (rank far below L however many arrive) before the symbols that complete the rank; K in 1..60, random Table-2 K' and K'+-1 up to kmax, uniform up to kmax, 60 000 / 1 200 000 sets of a small block (K' <= 42) made only of repair symbols of LT degree >= 4 (so that the first solver phase meets rows with r >= 4), 40 000 / 800 000 over-provisioned sets (K-1..K-3 source symbols and (K'-K+1)+2H+1.. repair symbols in one call), plus one sweep over every Table-2 row up to sweep_kmax (every 5th row above, up to sweep_kmax2) with K = K' and K = K'-1 / previous K'+1 and 1-3 lost source symbols; T 1..4; sparse threshold {0,250,inf}. After EVERY call: Some iff (all source present or rank over GF(256) of [LDPC; HDPC; LT rows of received+padding ISIs] = L) computed by the independent reference model; Some implies the right bytes. non-trivial = prefix with >= K distinct symbols and not all-source; distinct by (K, ESI set)",
         &["rank oracle = harness's independent model of RFC 6330 5.3.3.3 / 5.3.5 (golden tables; GF(2) elimination on bitsets then GF(256) elimination of the HDPC residual)", "symbol payloads are those of the crate's encoder (whose RFC conformance is C04's business)"],
         vec![],
     )
